@@ -82,4 +82,71 @@ theorem scan_no_wait_sound (conds : List (Str × Str)) (toks : List ETok)
   rw [if_neg hex]
   simp
 
+/-! ### the reported lock-order edges are complete -/
+
+theorem mem_addNew {α} [DecidableEq α] (xs : List α) (x y : α) : x ∈ addNew xs y ↔ x ∈ xs ∨ x = y := by
+  unfold addNew
+  split
+  · rename_i h
+    constructor
+    · intro hx; exact Or.inl hx
+    · intro hx
+      rcases hx with hx | hx
+      · exact hx
+      · subst hx; simpa using h
+  · simp
+
+theorem edgeFold_mono (m : Str) (hs : List Str) (es : List (Str × Str)) (e : Str × Str) (he : e ∈ es) :
+    e ∈ hs.foldl (fun es h => if h = m then es else addNew es (h, m)) es := by
+  induction hs generalizing es with
+  | nil => exact he
+  | cons h hs ih =>
+    simp only [List.foldl_cons]
+    apply ih
+    split
+    · exact he
+    · exact (mem_addNew _ _ _).mpr (Or.inl he)
+
+theorem edgeFold_mem (m : Str) (hs : List Str) (es : List (Str × Str)) (h : Str) (hh : h ∈ hs) (hne : h ≠ m) :
+    (h, m) ∈ hs.foldl (fun es h => if h = m then es else addNew es (h, m)) es := by
+  induction hs generalizing es with
+  | nil => cases hh
+  | cons a hs ih =>
+    simp only [List.foldl_cons]
+    rcases List.mem_cons.mp hh with rfl | hh'
+    · apply edgeFold_mono
+      rw [if_neg hne]
+      exact (mem_addNew _ _ _).mpr (Or.inr rfl)
+    · exact ih _ hh'
+
+theorem edges_step_mono (conds : List (Str × Str)) (st : Scan) (t : ETok) (e : Str × Str) (he : e ∈ st.edges) :
+    e ∈ (scanStep conds st t).edges := by
+  cases t <;> simp only [scanStep]
+  · exact edgeFold_mono _ _ _ _ he
+  · split <;> exact he
+  · split <;> exact he
+  · exact he
+  · split <;> exact he
+  · split <;> exact he
+  · exact he
+
+theorem edges_foldl_mono (conds : List (Str × Str)) (ts : List ETok) (st : Scan) (e : Str × Str) (he : e ∈ st.edges) :
+    e ∈ (ts.foldl (scanStep conds) st).edges := by
+  induction ts generalizing st with
+  | nil => exact he
+  | cons t ts ih => exact ih _ (edges_step_mono conds st t e he)
+
+/-- **Lock-order edges are complete.**  Whenever a script acquires `m` while it holds a different lock `h`, the pair
+`(h, m)` is among the edges the scan reports — so an order (rank) that all reported edges respect is respected by every
+nested acquisition of the script. -/
+theorem scan_edges_sound (conds : List (Str × Str)) (toks : List ETok) :
+    ∀ pre m post, toks = pre ++ .acq m :: post → ∀ h ∈ heldAfter conds pre, h ≠ m → (h, m) ∈ (scan conds toks).edges := by
+  intro pre m post htoks h hh hne
+  subst htoks
+  rw [scan_append]
+  simp only [List.foldl_cons]
+  apply edges_foldl_mono
+  simp only [scanStep]
+  exact edgeFold_mem m _ _ h (by simpa [heldAfter] using hh) hne
+
 end Hive.WPL
